@@ -226,7 +226,72 @@ func runOrderProbe(c *Ctx) {
 	c.Emit("noop", "x", false)
 }
 
+// runC04OptionHistory: one compiled expression evaluated again and again with DIFFERENT evaluate options: each result is a
+// function of the expression, the input and the options of THAT call — what an earlier call was given (a variable's value,
+// the clock) is gone.  The oracle is a freshly compiled expression evaluated once with the same options.
+func runC04OptionHistory(c *Ctx) {
+	res := mustResource(`{"resourceType":"Patient","id":"p1","active":true,"birthDate":"1980-02-29","name":[{"family":"Smith","given":["Ann","Bea"]},{"family":"Jones","given":["Cy"]},{"family":"Smythe"}]}`)
+	in := []fhir.Resource{res}
+	type val struct {
+		tag string
+		v   system.Collection
+	}
+	strs := []val{{"'^S'", system.Collection{system.String("^S")}}, {"'^J'", system.Collection{system.String("^J")}}, {"'e$'", system.Collection{system.String("e$")}}, {"'Smith'", system.Collection{system.String("Smith")}}, {"{}", system.Collection{}}}
+	ints := []val{{"0", system.Collection{system.Integer(0)}}, {"2", system.Collection{system.Integer(2)}}, {"1", system.Collection{system.Integer(1)}}, {"{}", system.Collection{}}}
+	bools := []val{{"true", system.Collection{system.Boolean(true)}}, {"false", system.Collection{system.Boolean(false)}}, {"{}", system.Collection{}}}
+	progs := []struct {
+		src  string
+		vals []val
+	}{
+		{"Patient.name.family.select($this.matches(%v))", strs}, {"Patient.name.where(family.matches(%v)).family", strs}, {"Patient.name.family.select($this.replaceMatches(%v, 'X'))", strs},
+		{"Patient.name.family.select($this.replaceMatches('S', %v))", strs}, {"Patient.name.family.select($this.replace(%v, 'X'))", strs}, {"Patient.name.family.select($this.indexOf(%v))", strs},
+		{"Patient.name.family.select($this.startsWith(%v))", strs}, {"Patient.name.where(family = %v).given", strs}, {"Patient.name.family.select($this & %v)", strs}, {"Patient.name.family.intersect(%v)", strs},
+		{"'Smith'.matches(%v)", strs}, {"(%v).matches('^S')", strs}, {"Patient.name.family.first().toString().matches(%v)", strs},
+		{"Patient.name[%v].family", ints}, {"Patient.name[%v + 0].family", ints}, {"Patient.name.skip(%v).family", ints}, {"Patient.name.take(%v).family", ints}, {"Patient.name.family.select($this.substring(%v))", ints},
+		{"Patient.name.family.select($this.substring(0, %v))", ints}, {"Patient.name.given.count() + %v", ints}, {"1.5.round(%v)", ints}, {"Patient.name.select(given[%v])", ints}, {"-%v", ints},
+		{"iif(%v, 'a', 'b')", bools}, {"Patient.name.where(%v).count()", bools}, {"Patient.name.all(%v)", bools}, {"Patient.name.exists(%v)", bools}, {"%v and Patient.active", bools}, {"%v.not()", bools},
+	}
+	clocks := []time.Time{time.Date(2020, 2, 29, 10, 30, 0, 0, time.UTC), time.Date(1999, 12, 31, 23, 59, 59, 0, time.FixedZone("", 5*3600+1800))}
+	for _, pr := range progs {
+		e, err := fhirpath.Compile(pr.src)
+		if err != nil {
+			c.Law(false, "C04/option-history", "the programs of the option-history law compile", pr.src, err.Error())
+			continue
+		}
+		order := []int{}
+		for round := 0; round < 2; round++ {
+			for i := range pr.vals {
+				order = append(order, i)
+			}
+		}
+		order = append(order, 0, 0, len(pr.vals)-1, 0)
+		hist := []string{}
+		for _, i := range order {
+			v := pr.vals[i]
+			got := canonOutcome(safeEval(func() (system.Collection, error) { return e.Evaluate(in, evalopts.EnvVariable("v", v.v)) }), nil)
+			fresh := canonOutcome(safeEval(func() (system.Collection, error) { return fhirpath.MustCompile(pr.src).Evaluate(in, evalopts.EnvVariable("v", v.v)) }), nil)
+			c.Observe("option history "+pr.src+" "+strings.Join(hist, ",")+" "+v.tag, true)
+			c.Law(got == fresh, "C04/option-history", "an evaluation depends on its own options only: what an earlier evaluation of the same expression was given is gone", pr.src+" with %v = "+v.tag+" after evaluations with %v = ["+strings.Join(hist, ", ")+"]", got+" vs freshly compiled "+fresh)
+			hist = append(hist, v.tag)
+		}
+	}
+	for _, src := range []string{"now()", "today()", "timeOfDay()", "Patient.name.select(now())", "now() = now()", "today() > Patient.birthDate", "Patient.name.where(now() > @2000)"} {
+		e, err := fhirpath.Compile(src)
+		if err != nil {
+			continue
+		}
+		for k := 0; k < 5; k++ {
+			t := clocks[k%2]
+			got := canonOutcome(safeEval(func() (system.Collection, error) { return e.Evaluate(in, evalopts.OverrideTime(t)) }), nil)
+			fresh := canonOutcome(safeEval(func() (system.Collection, error) { return fhirpath.MustCompile(src).Evaluate(in, evalopts.OverrideTime(t)) }), nil)
+			c.Observe("clock history "+src+" "+fmt.Sprint(k), true)
+			c.Law(got == fresh, "C04/option-history", "an evaluation depends on its own options only: what an earlier evaluation of the same expression was given is gone", src+" with OverrideTime("+t.String()+"), evaluation "+fmt.Sprint(k+1)+" of the same expression", got+" vs freshly compiled "+fresh)
+		}
+	}
+}
+
 func runC04(c *Ctx) {
+	runC04OptionHistory(c)
 	c.meta.Rule = "(1) random Compile histories (1..5 calls, 0..3 options each over AddFunction fresh/duplicate/built-in/bad-signature, WithExperimentalFuncs, Permissive) with function visibility probed after each call; (2) goroutines x shared expressions x shared resources under random start order, GOMAXPROCS 1..16, compared with sequential evaluation; (3) now()/today()/timeOfDay() agree within one evaluation and with OverrideTime; (4) the same programs re-executed under TZ in {UTC, Asia/Kolkata, America/St_Johns, Pacific/Chatham}; (5) 240 (expression, resource) jobs over 30 resource types that share nested element names, evaluated in four different orders in fresh processes; non-trivial = history with at least one option / concurrent evaluation; distinct by line"
 	// ---- (1) Compile histories
 	good := func(in system.Collection) (system.Collection, error) { return in, nil }
